@@ -223,6 +223,7 @@ pub use word_to_digit::{
 /// external monitor can run `find_numbers` on exactly the tokens `replace_numbers_in_text` uses.
 #[cfg(feature = "verif-hooks")]
 pub mod verif_hooks {
+    pub use crate::lang::verif_linking_vocabulary as linking_vocabulary;
     pub use crate::tokenizer::{tokenize, BasicToken, Tokenize};
 }
 
